@@ -254,7 +254,13 @@ def rule_token_range_source(prog):
             continue
         if b["name"] in ("shift_token", "update", "shift_range"):
             continue
+        # (helpers of the lexer that are handed the pieces - `lex_ranged(input, body, |out, range| Token::new(.., range))` - are read
+        # in place, closures called where they stand included)
+        b = dict(b, body=hir.simplify(hir.inline_calls(prog, b["body"], c, depth=3, only=lambda hb: roles.in_lexer_module(c, hb) and
+                                                       hb.get("impl_trait") is None and not hb["d"].startswith("<"))))
         dmap = _defs(b)
+        param_ids = {bd["id"] for pp in b["params"] for bd in hir.pat_bindings(pp)} | \
+            {bd["id"] for cl in hir.nodes(b["body"], "Closure") for pp in cl.get("params") or [] for bd in hir.pat_bindings(pp)}
 
         def is_offset(e, depth=0):
             e = hir.strip_ref(e)
@@ -268,14 +274,25 @@ def rule_token_range_source(prog):
 
         def ok_range(e, depth=0):
             e = hir.strip_ref(e)
+            if e.get("k") == "BlockExpr" and e["b"].get("expr") is not None and depth < 8:
+                return ok_range(e["b"]["expr"], depth + 1)
             if e.get("k") == "MethodCall" and e["m"] == "to_range" and "LocatedSpan" in c.tstr(e["recv"]["t"]):
                 return True
             if e.get("k") == "MethodCall" and e["m"] == "clone":
                 return ok_range(e["recv"], depth + 1)
             if e.get("k") == "Struct" and (e.get("adt") or "").startswith("core::ops::range::Range"):
-                return all(is_offset(f["e"]) for f in e["fields"])
+                if all(is_offset(f["e"]) for f in e["fields"]):
+                    return True
+                # positively computed: a bound built by arithmetic / from a length
+                if any(x.get("k") == "Binary" and x["op"] in ("+", "-") or (x.get("k") == "MethodCall" and x["m"] in ("len", "len_utf8", "count"))
+                       for f in e["fields"] for x in hir.nodes(f["e"])):
+                    return False
+                return None
             if e.get("k") == "Path" and e["res"].get("k") == "Local" and e["res"]["id"] in dmap and depth < 8:
                 return ok_range(dmap[e["res"]["id"]], depth + 1)
+            if e.get("k") == "Path" and e["res"].get("k") == "Local" and e["res"]["id"] in param_ids:
+                # handed in by the caller: not followed
+                return None
             return False
 
         per_macro = {}
@@ -289,8 +306,9 @@ def rule_token_range_source(prog):
                 if mx:
                     # one source site expanded many times: one instance per macro
                     e = per_macro.setdefault(mx[-1], [True, c.loc(call["sp"])])
-                    if not ok_range(call["args"][1]):
-                        e[0], e[1] = False, c.loc(call["sp"])
+                    v_ = ok_range(call["args"][1])
+                    if v_ is False or (v_ is None and e[0] is True):
+                        e[0], e[1] = v_, c.loc(call["sp"])
                     continue
                 out.add(b["d"], "token range is the range of the consumed input", ok_range(call["args"][1]), c.loc(call["sp"]), why)
         for m, (ok, loc) in sorted(per_macro.items()):
@@ -548,7 +566,7 @@ def rule_char_escapes(prog):
         out.missing("Char::lex / Display for TokenType")
         return out
     known = set()
-    for call in hir.nodes_deep(prog, lex[0]["body"], 2, crate=c):
+    for call in hir.nodes_deep(prog, lex[0]["body"], 2, crate=c, values=True):
         if call.get("k") == "Call" and (hir.callee(call) or "").endswith("complete::tag") and call["args"]:
             v = hir.lit_value(call["args"][0])
             if v and v.startswith("\\"):
@@ -970,6 +988,18 @@ def rule_comment_lex(prog):
             return out
         op, body, close = [x_[0] for x_ in steps]
         loc = c.loc(steps[0][1]["sp"])
+    # (a part may be bound to a local first: `let line_end = alt((..)); delimited(tag("//"), content, line_end)`)
+    defs_l = _defs(lex)
+
+    def resolve_(e_):
+        for _ in range(4):
+            pl_ = hir.path_local(hir.strip(e_))
+            if pl_ and pl_["id"] in defs_l:
+                e_ = defs_l[pl_["id"]]
+            else:
+                break
+        return e_
+    op, body, close = resolve_(op), resolve_(body), resolve_(close)
     opener = _closer_set(op)
     out.add(item, "a comment starts with `//`", (opener == {"//"}) if opener is not None else None, loc, "opener accepts %s" % opener)
     bc = _body_class(body)
@@ -1033,7 +1063,7 @@ def rule_lex_munch(prog):
     bounded = ("take_while_m_n", "many_m_n", "take_till_m_n", "fold_many_m_n", "count")
     for b in lexers:
         bad = None
-        for call in hir.nodes_deep(prog, b["body"], 1, crate=c):
+        for call in hir.nodes_deep(prog, b["body"], 2, crate=c, values=True):
             if call.get("k") != "Call":
                 continue
             nm = last(hir.callee(call) or "")
@@ -1105,7 +1135,7 @@ def rule_lex_munch(prog):
     if not char_lex:
         out.missing("lexer of character literals (Lexer impl constructing TokenType::Char)")
     for b in char_lex:
-        anys = [x for x in hir.nodes_deep(prog, b["body"], 1, crate=c) if x.get("k") == "Path" and x["res"].get("k") == "Def" and
+        anys = [x for x in hir.nodes_deep(prog, b["body"], 2, crate=c, values=True) if x.get("k") == "Path" and x["res"].get("k") == "Def" and
                 (x["res"].get("rp") or x["res"].get("p") or "").endswith("character::complete::anychar")]
         restricted = []
         for call in hir.nodes_deep(prog, b["body"], 1, crate=c):
